@@ -41,6 +41,15 @@ func (fx *fexec) externModel(key string, x *ssa.Call, f *ssa.Function, args []Va
 		}
 		r := ite(ltT, intLit(-1), ite(eq(a, b), intLit(0), intLit(1)))
 		return Val{Ty: rt, T: vc.fromInt(r, rt)}, true
+	case "math/bits.Len", "math/bits.Len64", "math/bits.Len32", "math/bits.Len8", "math/bits.Len16":
+		// position of the leading one: Len(0) = 0, otherwise 2^(L-1) <= x < 2^L
+		vc.note("extern math/bits.Len*: 2^(L-1) <= x < 2^L, Len(0) = 0 (assumed from its documentation)")
+		xv := vc.toInt(args[0])
+		l := vc.fresh("bitlen", SInt)
+		vc.assert(and(le(intLit(0), l), le(l, intLit(64))))
+		vc.assert(eq(eq(xv, intLit(0)), eq(l, intLit(0))))
+		vc.assert(implies(gt(xv, intLit(0)), and(le(vc.pow2Term(sub(l, intLit(1))), xv), lt(xv, vc.pow2Term(l)))))
+		return Val{Ty: rt, T: vc.fromInt(l, rt)}, true
 	case "slices.Delete":
 		return fx.slicesDelete(x, args, st, pos), true
 	case repoModule + "/tm2/pkg/amino.Unmarshal", repoModule + "/tm2/pkg/amino.UnmarshalSized",
